@@ -13,6 +13,7 @@ return exactly the complete file's records.
 """
 import json
 import os
+import time
 import shutil
 import subprocess
 import sys
@@ -204,6 +205,11 @@ def run_writer(ctx, case):
                     'complete_len': len(complete)})
 
 
+# exploration budget of the byte-prefix sweeps of one process (a healthy tree needs about a tenth of it)
+SWEEP_BUDGET_S = {'quick': 240, 'thorough': 7200}
+_spent = {'sweeps': 0.0}
+
+
 def sweep_prefixes(ctx, complete, lo, hi, label, scratch):
     """Every truncation length in [lo, hi) of a complete file."""
     with open(scratch, 'wb') as fh:
@@ -217,7 +223,15 @@ def sweep_prefixes(ctx, complete, lo, hi, label, scratch):
     accepted = []
     with open(scratch, 'wb') as fh:
         fh.write(complete[:hi])
+    t0 = time.time()
     for k in range(hi - 1, lo - 1, -1):
+        if time.time() - t0 > 150 or _spent['sweeps'] + time.time() - t0 > SWEEP_BUDGET_S[ctx.tier]:
+            # exploration budget, not a verdict: on a healthy tree a chunk takes a few seconds; a reader that no longer
+            # refuses early makes every truncation cost a full read
+            ctx.note('prefix sweeps were cut short by their time budget (150 s per chunk, '
+                     f'{SWEEP_BUDGET_S[ctx.tier]} s per process): first at {label}[{lo}:{hi}] byte {k}')
+            ctx.count('prefix_sweeps_cut_short')
+            break
         os.truncate(scratch, k)
         ok, out = read_image(scratch)
         ctx.monitor('prefix_read')
@@ -235,6 +249,7 @@ def sweep_prefixes(ctx, complete, lo, hi, label, scratch):
             ctx.violation('accepted-truncation-with-different-records', f'{label} truncated to {k} bytes returns other records', witness=w)
         else:
             ctx.hit('accepted:inside-box-line')
+    _spent['sweeps'] += time.time() - t0
     ctx.extra.setdefault('accepted_prefixes', {})
     if accepted:
         ctx.extra['accepted_prefixes'][f'{label}[{lo}:{hi}]'] = {
@@ -412,9 +427,19 @@ def run_api(ctx, case):
 def sweep_points(ctx, complete, points, label, scratch, complete_recs):
     """The given truncation lengths (any order) of a complete file."""
     bstart = box_start_of(complete)
+    bad = 0
+    t0, budget_s, done = time.time(), 120, 0
     with open(scratch, 'wb') as fh:
         fh.write(complete)
-    for k in sorted(set(int(p) for p in points if 0 <= p < len(complete)), reverse=True):
+    todo = sorted(set(int(p) for p in points if 0 <= p < len(complete)), reverse=True)
+    total = len(todo)
+    for k in todo:
+        if time.time() - t0 > budget_s:
+            # exploration budget, not a verdict: on a healthy tree the whole sweep takes a fraction of this
+            ctx.note(f'the sweep of {label} was cut short by its {budget_s}s budget after {done} of {total} truncations')
+            ctx.count('large_sweeps_cut_short')
+            break
+        done += 1
         os.truncate(scratch, k)
         ok, out = read_image(scratch)
         ctx.monitor('prefix_read')
@@ -427,10 +452,15 @@ def sweep_points(ctx, complete, points, label, scratch, complete_recs):
         if k <= bstart:
             ctx.violation('accepted-truncation-before-box-line',
                           f'{label} truncated to {k} bytes (box line starts at {bstart}) was accepted with {len(out)} records', witness=w)
+            bad += 1
         elif [tuple(r) for r in out] != complete_recs:
             ctx.violation('accepted-truncation-with-different-records', f'{label} truncated to {k} bytes returns other records', witness=w)
+            bad += 1
         else:
             ctx.hit('accepted:inside-box-line')
+        if bad >= 12:
+            ctx.note('a sweep over a large file was cut short after 12 refuting truncations (every further one costs a full read)')
+            break
 
 
 def run_large(ctx, case):
